@@ -57,16 +57,21 @@ func hexN(n int, b byte) string { return "0x" + strings.Repeat(fmt.Sprintf("%02x
 // (sorted-key, depth-first) enumeration of nodes, modulo its length.
 type Mutation struct {
 	Path int    `json:"path"`
-	Op   string `json:"op"` // delete | null | zero | empty | max
+	Op   string `json:"op"`            // delete | null | zero | empty | max | set
+	Val  string `json:"val,omitempty"` // set: the decimal text a numeric field is set to
 }
 
-var mutationOps = []string{"delete", "null", "zero", "zero", "empty", "max"}
+var mutationOps = []string{"delete", "null", "zero", "zero", "empty", "max", "set", "set", "set"}
 
 func genMutations(t *rapid.T, label string) []Mutation {
-	n := rapid.SampledFrom([]int{0, 0, 0, 0, 0, 0, 1, 1, 2, 3}).Draw(t, label+"N")
+	n := rapid.SampledFrom([]int{0, 0, 0, 0, 0, 1, 1, 2, 3, 4}).Draw(t, label+"N")
 	var ms []Mutation
 	for i := 0; i < n; i++ {
-		ms = append(ms, Mutation{Path: rapid.IntRange(0, 400).Draw(t, label+"Path"), Op: rapid.SampledFrom(mutationOps).Draw(t, label+"Op")})
+		m := Mutation{Path: rapid.IntRange(0, 400).Draw(t, label+"Path"), Op: rapid.SampledFrom(mutationOps).Draw(t, label+"Op")}
+		if m.Op == "set" {
+			m.Val = rapid.SampledFrom(boundaryStrings).Draw(t, label+"Val")
+		}
+		ms = append(ms, m)
 	}
 	return ms
 }
@@ -128,6 +133,27 @@ func mutate(root map[string]any, ms []Mutation) {
 			return
 		}
 		r := refs[m.Path%len(refs)]
+		if m.Op == "set" {
+			// a numeric field: the first decimal-string node at or after the path
+			for k := 0; k < len(refs); k++ {
+				c := refs[(m.Path+k)%len(refs)]
+				var cur any
+				if c.inList {
+					cur = c.parent.([]any)[c.idx]
+				} else {
+					cur = c.parent.(map[string]any)[c.key]
+				}
+				if str, isStr := cur.(string); isStr && !strings.HasPrefix(str, "0x") && str != "" {
+					if c.inList {
+						c.parent.([]any)[c.idx] = m.Val
+					} else {
+						c.parent.(map[string]any)[c.key] = m.Val
+					}
+					break
+				}
+			}
+			continue
+		}
 		if r.inList {
 			l := r.parent.([]any)
 			switch m.Op {
@@ -318,12 +344,12 @@ type ProposalSpec struct {
 func genBlockParams(t *rapid.T, slot uint64, randao byte) BlockParams {
 	return BlockParams{
 		Slot:          slot,
-		ProposerIndex: rapid.SampledFrom([]uint64{0, 1, 7, 1 << 40, ^uint64(0)}).Draw(t, "proposerIndex"),
+		ProposerIndex: genU64(t, "proposerIndex"),
 		Randao:        randao,
 		Graffiti:      rapid.SampledFrom([]byte{0, 0x20, 0x7b, 0xff}).Draw(t, "blockGraffiti"),
 		FeeRecipient:  rapid.SampledFrom([]byte{0, 0x11, 0x11, 0x11, 0xff}).Draw(t, "feeRecipient"),
 		PayloadState:  rapid.SampledFrom([]byte{0, 0x52, 0x52}).Draw(t, "payloadState"),
-		BlockNumber:   rapid.SampledFrom([]uint64{0, 1, 1 << 33, ^uint64(0)}).Draw(t, "blockNumber"),
+		BlockNumber:   genU64(t, "blockNumber"),
 		NAttestations: rapid.SampledFrom([]int{0, 0, 1, 2}).Draw(t, "nAtt"),
 		AttestationBits: rapid.SampledFrom([]string{"", "", "0x", "0x00", "0x01", "0xffff"}).Draw(t, "attBits"),
 	}
